@@ -44,8 +44,8 @@ pub fn campaigns(p: Prop) -> Vec<Campaign> {
             c("map-overflow", MapHist, &[T, T, T, P, P, L, L, STR, ZK, ZV], 24, (2000, 80_000)),
             c("set-overflow", SetHist, &[T, T, P], 24, (1000, 40_000)), cb("map-big", MapHist, &[T, P], 16, (60, 2500)), cb("set-big", SetHist, &[T, P], 16, (40, 1500))],
         Prop::C04 => vec![
-            Campaign { name: "map-faults", engine: MapHist, kinds: &[T, T, T, ND, P], max_ops: 12, cases: (120, 5000), caps: Some(&[0, 1, 2, 3, 4, 5]), fault: true },
-            Campaign { name: "set-faults", engine: SetHist, kinds: &[T, T, T, ND, P], max_ops: 12, cases: (80, 3000), caps: Some(&[0, 1, 2, 3, 4, 5]), fault: true },
+            Campaign { name: "map-faults", engine: MapHist, kinds: &[T, T, T, ND, P], max_ops: 12, cases: (400, 8000), caps: Some(&[0, 1, 2, 3, 4, 5]), fault: true },
+            Campaign { name: "set-faults", engine: SetHist, kinds: &[T, T, T, ND, P], max_ops: 12, cases: (250, 5000), caps: Some(&[0, 1, 2, 3, 4, 5]), fault: true },
         ],
         Prop::C05 => vec![Campaign { name: "map-invariants-under-user-panics", engine: MapHist, kinds: &[T, T, P, ND], max_ops: 10, cases: (50, 2000), caps: Some(&[0, 1, 2, 3, 4, 5]), fault: true }, Campaign { name: "set-invariants-under-user-panics", engine: SetHist, kinds: &[T, P, ND], max_ops: 10, cases: (30, 1200), caps: Some(&[0, 1, 2, 3, 4, 5]), fault: true }, c("map-invariants", MapHist, &[T, T, P, STR, ZK, ZV, ZB, PA], 40, (2000, 100_000)), c("set-invariants", SetHist, &[T, T, P, P, ZK], 40, (1200, 60_000)), cb("map-big", MapHist, &[T, P], 30, (100, 4000)), cb("set-big", SetHist, &[T, P], 30, (60, 2500)), cw((25, 1000))],
         Prop::C06 => vec![
